@@ -23,7 +23,7 @@ _OUT = os.environ.get("VERIF_OUT_DIR") or (
 REPLAY_DIR = os.path.join(_OUT, "replays")
 EVIDENCE_DIR = os.path.join(_OUT, "evidence")
 FINDINGS_FILE = os.path.join(VERIF, "known_findings.json")
-RUN_TIMEOUT_S = 120
+RUN_TIMEOUT_S = 900
 
 _ENGINE = None  # set before fork
 
